@@ -23,7 +23,7 @@ import (
 func init() {
 	register(&explore.Prop{
 		ID: "C10", Level: levelMC, Explorer: "E1 input-space enumerator, differential against a frozen reference implementation",
-		Rule: "reference = harness/refice, a frozen byte-for-byte copy of the pinned ice sources (never rebuilt from /repo). Scopes: MIX x modes, MERGE(k=2), STORED-B subset (two 128-document blocks), DV-C subset (1024-document doc-value chunks), LARGE subset (adaptive chunking across cardinality 1024); both writers (builder, merger) and both directions: bytes written by the CURRENT code are read by the REFERENCE reader, bytes written by the REFERENCE code are read by the CURRENT reader, each observation must equal the reference model; plus the golden corpus of reference-written files under golden/ (SHA-256 pinned). Observations are compared, not bytes (a change that keeps the format readable must not alarm); byte identity is reported as a statistic. " +
+		Rule: "reference = harness/refice, a frozen byte-for-byte copy of the pinned ice sources (never rebuilt from /repo). Scopes (builder files in both directions; merger files in both directions AND mixed: current merger over reference-written inputs, reference merger over current-written inputs): MIX x modes, EMPTY-RECORD (documents without any stored field on the block-copy path), MERGE(k=2), STORED-B subset (two 128-document blocks), DV-C subset (1024-document doc-value chunks), LARGE subset (adaptive chunking across cardinality 1024); both writers (builder, merger) and both directions: bytes written by the CURRENT code are read by the REFERENCE reader, bytes written by the REFERENCE code are read by the CURRENT reader, each observation must equal the reference model; plus the golden corpus of reference-written files under golden/ (SHA-256 pinned). Observations are compared, not bytes (a change that keeps the format readable must not alarm); byte identity is reported as a statistic. " +
 			"Components where the pinned reference itself is wrong are excluded by name (see coverage.notes); distinct = (case, direction); non-trivial = file crosses a format constant (>=129 docs, >=1025 docs, cardinality >=1024, >=2 doc-value terms) or is a merge output",
 		Assumptions: append(append([]string{}, commonAssumptions...), "C10 is relative to the single pinned reference (commit 76983be); the reference's own known defects (fixed in /repo by fix: commits) are excluded by name"),
 		Budget:      qBudget, Run: runC10,
@@ -292,12 +292,103 @@ func runC10(c *explore.Ctx) {
 		} else {
 			c.Count("byte_different_merger_files")
 		}
+		// mixed versions: the CURRENT merger over inputs WRITTEN BY THE REFERENCE (the merger's copy
+		// paths walk the inputs' bytes without going through the ordinary readers) ...
+		var refIn []segment.Segment
+		for _, rb := range inputs {
+			l, err := loadMem(rb)
+			if err != nil {
+				c.Violate(scope, idx, sigOf("C10", "ref-to-cur", "error: "+err.Error()), "current reader cannot load a reference-written input: "+err.Error(), cas)
+				return
+			}
+			refIn = append(refIn, l)
+		}
+		xb, _, _, err := merge(refIn, r.drops, r.cfg.Out)
+		if err != nil {
+			c.Violate(scope, idx, sigOf("C10", "cur-merges-ref-inputs", "error: "+err.Error()), "current merger fails on reference-written inputs: "+err.Error(), cas)
+			return
+		}
+		xl, err := loadMem(xb)
+		if err == nil {
+			var xo *obs.Obs
+			xo, err = observe(xl)
+			if err == nil {
+				if d := obs.Diff(xo, want, obs.CAll&^obs.CStats); d != "" {
+					c.Violate(scope, idx, sigOf("C10", "cur-merges-ref-inputs", d), "current merger over reference-written inputs: "+d, cas)
+					return
+				}
+			}
+		}
+		if err != nil {
+			c.Violate(scope, idx, sigOf("C10", "cur-merges-ref-inputs", "error: "+err.Error()), "output of the current merger over reference-written inputs: "+err.Error(), cas)
+			return
+		}
+		// ... and the REFERENCE merger over inputs written by the current builder
+		if !r.zeroSurvivors() {
+			var curIn [][]byte
+			for _, b := range r.batches {
+				sg, err := build(b, 1025)
+				if err != nil {
+					return
+				}
+				cb, _, err := persist(sg)
+				if err != nil {
+					return
+				}
+				curIn = append(curIn, cb)
+			}
+			yb, err := refMerge(curIn, r.drops, r.cfg.Out)
+			if err != nil {
+				c.Violate(scope, idx, sigOf("C10", "ref-merges-cur-inputs", "error: "+err.Error()), "reference merger fails on inputs written by the current builder: "+err.Error(), cas)
+				return
+			}
+			yo, err := refObserve(yb)
+			if err != nil {
+				c.Violate(scope, idx, sigOf("C10", "ref-merges-cur-inputs", "error: "+err.Error()), "reference reader on the reference merger's output over current-written inputs: "+err.Error(), cas)
+				return
+			}
+			if d := obs.Diff(yo, want, obs.CAll&^obs.CDictCount&^obs.CStats); d != "" {
+				c.Violate(scope, idx, sigOf("C10", "ref-merges-cur-inputs", d), "reference merger over inputs written by the current builder: "+d, cas)
+				return
+			}
+		}
 	}
 	cfgs := []mergeCfg{{"prod", []uint32{1025}, 0, 1025, false}, {"fixed", []uint32{1025}, 0, 2, false}}
 	if c.Thorough() {
 		mergeSweep(c, 2, 8, 2, cfgs, check)
 	} else {
 		mergeSweep(c, 2, 5, 2, cfgs[:1], check)
+	}
+	// EMPTY-RECORD: documents without any stored field at all (not even `_id`) followed by others in
+	// the same 128-document block, merged on the block-COPY path (identical field lists, no deletions)
+	{
+		mk := func(tag string, kinds ...int) []model.Doc {
+			var b []model.Doc
+			for i, k := range kinds {
+				b = append(b, gen.MixDoc(k, tag, i))
+			}
+			return b
+		}
+		cases := [][][]model.Doc{
+			{mk("s0", 8, 2), mk("s1", 2)},
+			{mk("s0", 2, 8, 2), mk("s1", 2, 8)},
+			{mk("s0", 8, 8, 2), mk("s1", 8, 2, 8)},
+			{mk("s0", 8), mk("s1", 8, 2)},
+		}
+		for ci, bs := range cases {
+			scope := "EMPTY-RECORD"
+			if !c.MineIdx(scope, int64(ci)) || c.Expired() {
+				continue
+			}
+			c.Eval()
+			r, err := manualMerge(fmt.Sprintf("empty-record #%d", ci), bs, [][]uint32{nil, nil}, 1025)
+			if err != nil {
+				c.R.Error = "C10 EMPTY-RECORD inputs: " + err.Error()
+				return
+			}
+			r.run()
+			check(scope, int64(ci), r)
+		}
 	}
 	// NORMS: norms with unusual float32 bit patterns (>= 2: bit 30 set; huge, maximal, denormal,
 	// minimal) - the norm is an opaque float32 in postings and bit-packed in 1-hit dictionary values
